@@ -94,6 +94,7 @@ type c18Op struct {
 	Who      int    `json:"who,omitempty"`
 	Interval uint64 `json:"interval,omitempty"`
 	Oracle   bool   `json:"oracle,omitempty"`
+	Restart  bool   `json:"restart,omitempty"` // block: export and import the module between this block and the next
 	SameTx   bool   `json:"same_tx,omitempty"` // request: a further message of the transaction that carried the block's previous request
 	FeeCap   string `json:"fee_cap,omitempty"` // amount of stake (decimal)
 	Dt       int64  `json:"dt,omitempty"`
@@ -138,6 +139,7 @@ type c18Machine struct {
 	nOracleRefused, nOracleLax                                                                              int
 	nZeroInterval, nLarge, nMeta, nPlainDone, nFeeRefused, nSameTx                                          int
 	blockTx                                                                                                 []byte // tx bytes of the block's latest request
+	nBoundaryRestart, nBoundaryRestartDue                                                                   int
 	nStartFailed, nReimport, nReimportMulti                                                                 int
 }
 
@@ -235,7 +237,8 @@ func (m *c18Machine) Next(t *rapid.T) c18Op {
 		if rapid.IntRange(0, 19).Draw(t, "hash/odd") == 0 {
 			n = rapid.SampledFrom([]int{1, 20, 64}).Draw(t, "hash/len")
 		}
-		return c18Op{Kind: "block", Dt: gen.DtFar(t, "dt", m.c.Time()), Hash: c18Bytes(t, "hash", n), Meta: rapid.IntRange(0, 4).Draw(t, "meta") == 0}
+		return c18Op{Kind: "block", Dt: gen.DtFar(t, "dt", m.c.Time()), Hash: c18Bytes(t, "hash", n), Meta: rapid.IntRange(0, 4).Draw(t, "meta") == 0,
+			Restart: rapid.IntRange(0, 7).Draw(t, "restart") == 0}
 	}
 }
 
@@ -398,7 +401,20 @@ func (m *c18Machine) applyBlock(op c18Op) error {
 		m.nMeta++
 	}
 
-	end, begin := m.c.NextBlock(time.Duration(op.Dt), hash)
+	end := m.c.EndBlock()
+	m.c.Advance(time.Duration(op.Dt), hash)
+	if op.Restart {
+		// the chain is restarted from its exported genesis between the two blocks, as an export-based upgrade does it:
+		// the import runs at the new chain's initial height, the requests due in the block just ended are still queued
+		if _, stage, err := m.c.Reimport("random", randomtypes.RandomRequestQueueKey); err != nil {
+			return pbt.Failf("C18/reimport-"+stage, "random genesis round trip at the boundary to height %d: %v", m.c.Height(), err)
+		}
+		m.nBoundaryRestart++
+		if len(due) > 0 {
+			m.nBoundaryRestartDue++
+		}
+	}
+	begin := m.c.BeginBlock()
 	if end.Outcome != chain.OK || begin.Outcome != chain.OK {
 		return pbt.Failf("C18/block-hook", "block hooks failed: end=%v begin=%v", end, begin)
 	}
@@ -720,6 +736,8 @@ func (m *c18Machine) Classify() (bool, []string) {
 	add(m.nZeroInterval > 0, "interval-0")
 	add(m.nLarge > 0, "large-interval-stays-queued")
 	add(m.nSameTx > 0, "requests-of-several-consumers-in-one-tx")
+	add(m.nBoundaryRestart > 0, "restart-at-a-block-boundary")
+	add(m.nBoundaryRestartDue > 0, "restart-at-a-block-boundary-with-requests-due")
 	add(m.c.Time().Year() > 2262 && m.nPlainDone > 0, "block-time-beyond-2262")
 	add(m.nMeta > 0, "metamorphic-branch")
 	add(m.nPlainDone >= 3, "plain-fulfilled>=3")
